@@ -93,7 +93,8 @@ class Built:
                     self.exposed_by_decorator.append((i, name, list(m.get('alias') or []), f,
                                                       m.get('exp') is True or m.get('exp') is None))
                 if m.get('conf') is not None:
-                    f._cp_config = dict(m['conf'])
+                    # the documented way to attach handler config: the `cherrypy.config(**kw)` decorator
+                    cherrypy.config(**dict(m['conf']))(f)
                 ns[name] = f
             if nd.get('call') is not None:
                 f = self._probe('%d()' % i)
@@ -416,8 +417,12 @@ class Runner:
         inner = cherrypy.dispatch.MethodDispatcher() if kind == 'M' else cherrypy.dispatch.Dispatcher()
         seen = self.seen_path
 
+        self.requests = []
+        reqs = self.requests
+
         def recording_dispatch(path_info):
             seen.append(path_info)
+            reqs.append(cherrypy.serving.request)
             return inner(path_info)
         conf = {}
         for k, v in (sections or {}).items():
@@ -433,6 +438,7 @@ class Runner:
     def get(self, path, method='GET'):
         self.built.journal[:] = []
         self.seen_path[:] = []
+        self.requests[:] = []
         environ = {
             'REQUEST_METHOD': method, 'SCRIPT_NAME': '', 'PATH_INFO': path, 'QUERY_STRING': '',
             'SERVER_NAME': 'localhost', 'SERVER_PORT': '80', 'SERVER_PROTOCOL': 'HTTP/1.1',
